@@ -25,7 +25,13 @@ def run(chk):
              "'removable iff distance <= epsilon' (all sites agree)")
     chk.rule("NEIGHBOURS.fresh", "SimplifyPath: after a removal the two distances next to the gap are recomputed from the vertices' own surviving "
              "neighbours (one loop iteration interpreted on a generic ring, both outcomes of the smaller-distance test)")
+    chk.rule("POLY.cross", "CrossProductSign / IsCollinear / ProductsAreEqual compare two products whose difference is identically the cross product "
+             "(pt2-pt1)x(pt3-pt2); portable path: magnitudes and signs of the same factors; 128-bit tail returns sign(ab-cd) / (ab==cd) on every ordering")
+    chk.rule("POLY.measure", "CrossProduct, DotProduct, DistanceSqr, PerpendicDistFromLineSqrd, GetClosestPointOnSegment equal their defining "
+             "real-number formulas (identity of polynomial normal forms; rounding not decided)")
     chk.rule("ERASE", "StripDuplicates calls only erase / pop_back on its path")
+    chk.rule("BOUNDS.minmax", "GetBounds (every overload): the per-vertex update leaves min' = min(min, v) and max' = max(max, v) in all four "
+             "situations of a coordinate, the sentinel state (both at once) included - its defining equation")
     for cfg in cfgs:
         db = AstDB(cfg)
         e11.rule_membership(db, chk, cfg)
@@ -35,6 +41,11 @@ def run(chk):
         e11.rule_trim_last_kept(db, chk, cfg)
         e11.rule_eps_threshold(db, chk, cfg)
         e11.rule_simplify_neighbours(db, chk, cfg)
+        from ..engines import e3_tables as e3
+        e3.bounds_update_table(db, chk, cfg)
+        from ..engines import e14_poly as e14
+        e14.rule_cross(db, chk, cfg)
+        e14.rule_measure(db, chk, cfg)
     n = len(cfgs)
     chk.floor("MEMBER", 12 * n)
     chk.floor("MONO", 3 * n)
